@@ -18,12 +18,15 @@ def dirderiv(f, x, v, eps):
         return float((f(x + eps * v) - f(x - eps * v)) / (2 * eps))
 
 
-def oracle_layer_grad(ck, order, biort, qshift, b, colour, x, zero_input=False, mode='symmetric'):
+def oracle_layer_grad(ck, order, biort, qshift, b, colour, x, zero_input=False, mode='symmetric', force=None):
     from pytorch_wavelets import ScatLayer, ScatLayerj2
     desc = 'gradient of ScatLayer%s biort=%s mode=%s magbias=%g colour=%s shape=%s%s' % ('j2' if order == 2 else '', biort, mode, b, bool(colour), tuple(x.shape), ' (all-zero input)' if zero_input else '')
-    replay = {'oracle': 'layer_grad', 'order': order, 'biort': biort, 'qshift': qshift, 'b': b, 'colour': colour, 'x': arr_json(x), 'zero': zero_input, 'mode': mode}
-    mod = ScatLayer(biort=biort, mode=mode, magbias=b, combine_colour=bool(colour)) if order == 1 else \
-        ScatLayerj2(biort=biort, qshift=qshift, magbias=b, combine_colour=bool(colour))
+    replay = {'oracle': 'layer_grad', 'order': order, 'biort': biort, 'qshift': qshift, 'b': b, 'colour': colour, 'x': arr_json(x), 'zero': zero_input, 'mode': mode, 'force': force}
+    if force:
+        desc += ' [layer state adopted: %s]' % force
+    from ..impl_scat import scat_module
+    mod = scat_module(1, x, force, biort=biort, mode=mode, magbias=b, combine_colour=bool(colour)) if order == 1 else \
+        scat_module(2, x, force, biort=biort, qshift=qshift, magbias=b, combine_colour=bool(colour))
     xt = T(x).requires_grad_(True)
     C = x.shape[1]
     n_low = C if order == 1 else None            # order 1: the first C channels are the pooled low-passes S0
@@ -121,6 +124,10 @@ def oracle(ck, extended):
     q = ck.tier == 'quick'
     for mask in (1, 2, 3):
         rt.guard(ck, oracle_smoothmag, ck, mask); oracle_smoothmag(ck, mask, zero=True)
+    # covering cases: a layer that took over its state from an instance of the other 10-tap q-shift family / from a
+    # deferred (meta-device) construction, through load_state_dict
+    for (order, qs_, force) in [(2, 'qshift_a', 'alt'), (2, 'qshift_06', 'alt'), (1, 'qshift_a', 'deferred'), (2, 'qshift_a', 'deferred')]:
+        rt.guard(ck, oracle_layer_grad, ck, order, 'near_sym_a', qs_, 0.1, 0, npr.standard_normal((1, 2, 8, 8)), False, 'symmetric', force)
     n = (12 if q else 100) * (2 if extended else 1)
     for it in range(n):
         biort, qshift = rng.choice(FAMS)
@@ -163,7 +170,7 @@ def replay(ck, path):
         print('replay file names no failing input: %s' % d.get('broken_obligations'))
         return 1
     if f['oracle'] == 'layer_grad':
-        oracle_layer_grad(ck, f['order'], f['biort'], f['qshift'], f['b'], f['colour'], arr_from(f['x']), f['zero'], f.get('mode', 'symmetric'))
+        oracle_layer_grad(ck, f['order'], f['biort'], f['qshift'], f['b'], f['colour'], arr_from(f['x']), f['zero'], f.get('mode', 'symmetric'), f.get('force'))
     else:
         oracle_smoothmag(ck, f['mask'], f['zero'])
     for fl in ck.failures:
